@@ -1,4 +1,252 @@
-import GuppyVerif.Model.Render
+import GuppyVerif.Lemmas.C29Snippet
+/-! # C29 — Diagnostic rendering is total and faithful
+
+Property theorems only.  The model (`Model/Render.lean`) mirrors `diagnostic.py` *after* the fix
+commits (wrap only at whitespace; empty / blank texts; sub-diagnostic span truthiness).  The
+specification vocabulary (`Spec/C29.lean`) reads rendered text back with its own functions
+(`parseLine`, `numbered`, `words`, `vis`, `MarkerUnder`), independent of the rendering code.
+
+Coordinates: a rendered row body shows the source line minus `r` columns of pure indentation, so
+body index `j` is source column `j + r`. -/
 namespace GuppyVerif.Render
-theorem stub_c29 : (1 : Nat) = 1 := rfl
+
+/-! ## totality -/
+
+/-- **C29 (total, wrap)**: `diagnostic.wrap` never raises and returns at least one line
+    (after the fix; before it, empty and whitespace-only texts raised `ValueError`). -/
+theorem wrap_total (text : Str) (w : Nat) (ii si : Str) :
+    ∃ first rest, wrap text w ii si = .ok (first :: rest) := by
+  obtain ⟨f, r, _, h⟩ := wrap_ok text w ii si
+  exact ⟨_, _, h⟩
+
+/-- **C29 (total, snippet)**: for a span inside the registered source that satisfies the explicit
+    precondition `ShiftSafe` (what `Loc.shift_left` asserts), `render_snippet` terminates
+    without error — for every source, label, line-number width, highlight kind and context size. -/
+theorem render_total (src : List Str) (s : Span) (label : Option Str) (maxLn : Nat) (prim : Bool)
+    (pfx : Nat) (hin : InSource src s) (hv : s.Valid) (hsafe : ShiftSafe src s pfx) :
+    ∃ out, renderSnippet src s label maxLn prim pfx = .ok out := by
+  obtain ⟨tail, rest, h, _⟩ := renderSnippet_shape src s label maxLn prim pfx hin hv hsafe
+  exact ⟨_, h⟩
+
+/-- the precondition is necessary: at every excluded point inside the source the code raises
+    `AssertionError` (classification of the points excluded by `ShiftSafe`) -/
+theorem shift_unsafe_raises (src : List Str) (s : Span) (label : Option Str) (maxLn : Nat) (prim : Bool)
+    (pfx : Nat) (hin : InSource src s) (hv : s.Valid) (hsafe : ¬ ShiftSafe src s pfx) :
+    renderSnippet src s label maxLn prim pfx = .error .assertion :=
+  renderSnippet_unsafe src s label maxLn prim pfx hin hv hsafe
+
+/-- spans whose endpoints are not inside the indentation of their lines (all token-based spans)
+    satisfy the precondition -/
+theorem token_spans_shift_safe (src : List Str) (s : Span) (pfx : Nat) (hin : InSource src s) (hv : s.Valid)
+    (ht : TokenBased src s) : ShiftSafe src s pfx := by
+  have hle := hv.le
+  have hc := ctxLines_lt s pfx hin.1
+  unfold ShiftSafe removed
+  cases hm : minList ((block src s pfx).map leadingWs) with
+  | none => simp
+  | some lw =>
+    have hmin := minList_le _ _ hm
+    have hb := block_eq src s pfx hin hle
+    have m1 : leadingWs (srcLine src s.start.line) ∈ (block src s pfx).map leadingWs := by
+      rw [hb]
+      simp only [List.map_map, List.mem_map, List.mem_range, Function.comp_apply]
+      exact ⟨ctxLines s pfx, by omega, by congr 2; omega⟩
+    have m2 : leadingWs (srcLine src s.stop.line) ∈ (block src s pfx).map leadingWs := by
+      rw [hb]
+      simp only [List.map_map, List.mem_map, List.mem_range, Function.comp_apply]
+      exact ⟨ctxLines s pfx + (s.stop.line - s.start.line), by omega, by congr 2; omega⟩
+    have := hmin _ m1
+    have := hmin _ m2
+    have := ht.1
+    have := ht.2
+    simp only
+    split <;> omega
+
+example : let src := ["def f():".toList, "                x = 1".toList]
+    let s : Span := ⟨⟨2, 16⟩, ⟨2, 17⟩⟩
+    InSource src s ∧ s.Valid ∧ TokenBased src s ∧ removed src s 0 = 12 := by
+  refine ⟨by decide, by decide, by decide, by decide⟩
+
+/-! ## line numbers -/
+
+/-- **C29 (true line numbers)**: the numbered rows of a rendered snippet are exactly the context
+    lines, the first and (if different) the last line of the span, in order; the row numbered `k`
+    shows source line `k` minus `r` leading columns, where `r` is the same for all rows and every
+    removed column is indentation (`r ≤` the leading whitespace of every shown line). -/
+theorem line_numbers_true (src : List Str) (s : Span) (label : Option Str) (maxLn : Nat) (prim : Bool)
+    (pfx : Nat) (out : List Str) (hin : InSource src s) (hv : s.Valid)
+    (h : renderSnippet src s label maxLn prim pfx = .ok out) :
+    ∃ r, (∀ k ∈ shown s pfx, r ≤ leadingWs (srcLine src k)) ∧
+      numbered out = (shown s pfx).map (fun k => (k, (srcLine src k).drop r)) := by
+  by_cases hsafe : ShiftSafe src s pfx
+  · obtain ⟨tail, rest, h', _⟩ := renderSnippet_shape src s label maxLn prim pfx hin hv hsafe
+    rw [h'] at h
+    injection h with h
+    refine ⟨removed src s pfx, ?_, ?_⟩
+    · intro k hk
+      have hle := hv.le
+      have hc := ctxLines_lt s pfx hin.1
+      unfold removed
+      cases hm : minList ((block src s pfx).map leadingWs) with
+      | none => simp
+      | some lw =>
+        have hmin := minList_le _ _ hm
+        have hb := block_eq src s pfx hin hle
+        have mk : leadingWs (srcLine src k) ∈ (block src s pfx).map leadingWs := by
+          rw [hb]
+          simp only [List.map_map, List.mem_map, List.mem_range, Function.comp_apply]
+          unfold shown at hk
+          simp only [List.mem_append, List.mem_map, List.mem_range] at hk
+          rcases hk with ⟨i, hi, rfl⟩ | hk
+          · exact ⟨i, by omega, rfl⟩
+          · split at hk
+            · simp at hk
+            · simp only [List.mem_singleton] at hk
+              subst hk
+              exact ⟨ctxLines s pfx + (s.stop.line - s.start.line), by omega, by congr 2; omega⟩
+        have := hmin _ mk
+        simp only
+        split <;> omega
+    · rw [← h, numbered_snippetRows _ _ _ _ _ _ _ _ hin.1]
+      rfl
+  · rw [renderSnippet_unsafe src s label maxLn prim pfx hin hv hsafe] at h
+    cases h
+
+/-! ## markers -/
+
+/-- **C29 (markers under the spanned columns)**: with `r` the number of trimmed indentation
+    columns (`r ≤` both span columns), the row right after the last span line carries exactly
+    `start.col - r` blanks and then `stop.col - start.col` highlight characters (single-line span:
+    body indices `[start.col - r, stop.col - r)`, i.e. source columns `[start.col, stop.col)`), followed
+    by nothing or by a blank and the label.  For a multi-line span the first line is marked from
+    `start.col` to its end and the last line from its (trimmed) beginning to `stop.col`.
+    The highlight character is `^` for the primary span and `-` otherwise. -/
+theorem markers_under_columns (src : List Str) (s : Span) (label : Option Str) (maxLn : Nat) (prim : Bool)
+    (pfx : Nat) (out : List Str) (hin : InSource src s) (hv : s.Valid)
+    (h : renderSnippet src s label maxLn prim pfx = .ok out) :
+    ∃ r tail, r ≤ s.start.col ∧ r ≤ s.stop.col ∧ (tail = [] ∨ ∃ t, tail = ' ' :: t) ∧
+      (s.start.line = s.stop.line →
+        MarkerUnder out s.stop.line ((srcLine src s.stop.line).drop r)
+          (s.start.col - r) (s.stop.col - s.start.col) (if prim then '^' else '-') tail) ∧
+      (s.start.line ≠ s.stop.line →
+        MarkerUnder out s.start.line ((srcLine src s.start.line).drop r)
+          (s.start.col - r) ((srcLine src s.start.line).length - s.start.col) (if prim then '^' else '-') [] ∧
+        MarkerUnder out s.stop.line ((srcLine src s.stop.line).drop r)
+          0 (s.stop.col - r) (if prim then '^' else '-') tail) := by
+  by_cases hsafe : ShiftSafe src s pfx
+  · obtain ⟨tail, rest, h', hspec⟩ := renderSnippet_shape src s label maxLn prim pfx hin hv hsafe
+    rw [h'] at h
+    injection h with h
+    subst h
+    have hs1 : removed src s pfx ≤ s.start.col := hsafe.1
+    have hs2 : removed src s pfx ≤ s.stop.col := hsafe.2
+    generalize hr : removed src s pfx = r at *
+    generalize hhl : (if prim then '^' else '-') = hl at *
+    generalize hll : (digits maxLn).length = ll at *
+    let P : List Str := [renderLine ll [] none] ++
+      (List.range' 0 (ctxLines s pfx)).map (fun i => renderLine ll (tline src r (s.start.line - ctxLines s pfx + i))
+        (some (s.start.line - ctxLines s pfx + i)))
+    let R : List Str := rest.map (renderLine ll · none)
+    refine ⟨r, tail, hs1, hs2, hspec.tail_shape, ?_, ?_⟩
+    · intro hsingle
+      have hcols : s.start.col ≤ s.stop.col := by
+        rcases hv with hv | hv <;> omega
+      have hb : s.stop.col - r - (s.start.col - r) = s.stop.col - s.start.col := by
+        omega
+      refine ⟨P, renderLine ll (tline src r s.stop.line) (some s.stop.line),
+        renderLine ll (List.replicate (s.start.col - r) ' ' ++ List.replicate (s.stop.col - s.start.col) hl ++ tail) none,
+        R, ?_, parseLine_renderLine_some _ _ _, parseLine_renderLine_none _ _⟩
+      simp only [snippetRows, hsingle, ↓reduceIte, highlight_eq, hb, P, R]
+      simp only [List.append_assoc, List.cons_append, List.nil_append]
+    · intro hmulti
+      have hb : (tline src r s.start.line).length - (s.start.col - r)
+          = (srcLine src s.start.line).length - s.start.col := by
+        simp only [tline, List.length_drop]; omega
+      let D : List Str := if s.stop.line = s.start.line + 1 then [] else [renderLine ll ['.', '.', '.'] none]
+      let l1 := renderLine ll (tline src r s.start.line) (some s.start.line)
+      let m1 := renderLine ll (List.replicate (s.start.col - r) ' ' ++
+        List.replicate ((srcLine src s.start.line).length - s.start.col) hl ++ []) none
+      let l2 := renderLine ll (tline src r s.stop.line) (some s.stop.line)
+      let m2 := renderLine ll (List.replicate 0 ' ' ++ List.replicate (s.stop.col - r) hl ++ tail) none
+      have hrows : snippetRows src s ll hl pfx r tail rest = P ++ l1 :: m1 :: (D ++ l2 :: m2 :: R) := by
+        simp only [snippetRows, hmulti, ↓reduceIte, highlight_eq, hb, P, R, D, l1, m1, l2, m2, Nat.sub_zero,
+          List.append_nil]
+        simp only [List.append_assoc, List.cons_append, List.nil_append]
+      constructor
+      · exact ⟨P, l1, m1, D ++ l2 :: m2 :: R, hrows, parseLine_renderLine_some _ _ _, parseLine_renderLine_none _ _⟩
+      · refine ⟨P ++ l1 :: m1 :: D, l2, m2, R, ?_, parseLine_renderLine_some _ _ _, parseLine_renderLine_none _ _⟩
+        rw [hrows]; simp
+  · rw [renderSnippet_unsafe src s label maxLn prim pfx hin hv hsafe] at h
+    cases h
+
+example : let src := ["def f():".toList, "                x = 1".toList]
+    MarkerUnder
+      [" | ".toList, "2 |     x = 1".toList, "  |     ^ no".toList]
+      2 ((srcLine src 2).drop 12) (16 - 12) (17 - 16) '^' " no".toList :=
+  ⟨[" | ".toList], "2 |     x = 1".toList, "  |     ^ no".toList, [], by decide, by decide, by decide⟩
+
+/-! ## whole diagnostics: totality and content -/
+
+/-- **C29 (total, diagnostic)**: if every span of the diagnostic (main span with its two context
+    lines, and the span of every sub-diagnostic) lies inside the registered source and is
+    shift-safe, `render_diagnostic` terminates without error — for all titles, labels, messages and
+    any number of sub-diagnostics with or without spans, labels, messages. -/
+theorem render_total_diag (file : Str) (src : List Str) (d : Diag) (hd : DiagOK src d) :
+    ∃ out, renderDiagnostic file src d = .ok out := by
+  obtain ⟨out, h, _⟩ := renderDiagnostic_ok file src d hd
+  exact ⟨out, h⟩
+
+/-- **C29 (content preserved)**: the visible (non-whitespace) characters of the title, of every
+    label and of every message of the diagnostic and its sub-diagnostics appear, in order, in the
+    rendered output. -/
+theorem content_preserved (file : Str) (src : List Str) (d : Diag) (out : List Str) (hd : DiagOK src d)
+    (h : renderDiagnostic file src d = .ok out) :
+    ∀ t ∈ diagTexts d, (vis t).Sublist out.flatten := by
+  obtain ⟨out', h', hc⟩ := renderDiagnostic_ok file src d hd
+  rw [h'] at h
+  injection h with h
+  subst h
+  exact hc
+
+example : diagTexts ⟨.error, some ⟨⟨1, 0⟩, ⟨1, 1⟩⟩, "T".toList, some "lab".toList, none,
+    [⟨.note, none, none, some "msg".toList⟩]⟩ = ["T".toList, "lab".toList, "msg".toList] := by decide
+
+/-- wrapping neither drops nor reorders nor invents visible characters -/
+theorem content_preserved_wrap (text : Str) (w : Nat) :
+    vis (wrapLines text w).flatten = vis text :=
+  vis_wrapLines text w
+
+/-! ## wrapping -/
+
+/-- **C29 (width respected)**: every line produced by `wrap` is its indent followed by a body that
+    is at most `w` characters long, or else contains no whitespace at all (a single word longer than
+    the width, which is deliberately not broken). -/
+theorem width_respected (text : Str) (w : Nat) (ii si : Str) (out : List Str)
+    (h : wrap text w ii si = .ok out) :
+    ∀ l ∈ out, ∃ ind body, l = ind ++ body ∧ (ind = ii ∨ ind = si) ∧
+      (body.length ≤ w ∨ ∀ c ∈ body, isWs c = false) := by
+  obtain ⟨f, r, hw, hok⟩ := wrap_ok text w ii si
+  rw [hok] at h
+  injection h with h
+  subst h
+  have hwd := wrapLines_width text w
+  rw [hw] at hwd
+  intro l hl
+  simp only [List.mem_cons, List.mem_map] at hl
+  rcases hl with rfl | ⟨b, hb, rfl⟩
+  · exact ⟨ii, f, rfl, Or.inl rfl, hwd f (by simp)⟩
+  · exact ⟨si, b, rfl, Or.inr rfl, hwd b (by simp [hb])⟩
+
+/-- **C29 (wrapped only at whitespace)**: the whitespace-delimited words of the wrapped lines, read
+    line by line, are exactly the words of the text, in order — no word is ever split across lines
+    (not at hyphens, not when longer than the width), none is lost, none is merged with a neighbour.
+    Holds at full strength after fix commit 55bf698; before it `textwrap`'s defaults
+    `break_long_words` / `break_on_hyphens` made it false (D13). -/
+theorem wrap_at_whitespace (text : Str) (w : Nat) :
+    (wrapLines text w).flatMap words = words text :=
+  words_wrapLines text w
+
+example : words "the value is non-copyable".toList
+    = ["the".toList, "value".toList, "is".toList, "non-copyable".toList] := by decide
+
 end GuppyVerif.Render
